@@ -42,7 +42,7 @@ Lemma op_prog_touches : forall s o st, In st (op_prog s o) -> forall q, In q (to
   q = key_of o \/ q = new_of (key_of o) \/ q = rpl_of (key_of o).
 Proof.
   intros s o st H q Hq. destruct o as [k v | k]; cbn [op_prog key_of] in *.
-  - destruct (exists_ s k).
+  - destruct (fits k); [|contradiction]. destruct (exists_ s k).
     + destruct H as [<-|H]; [destruct Hq as [<-|[]]; tauto|].
       apply in_app_or in H as [H|[<-|[<-|[]]]].
       * unfold write_steps in H. apply in_map_iff in H as (b & <- & _). destruct Hq as [<-|[]]; tauto.
@@ -63,7 +63,7 @@ Proof.
   { intros q Hq. destruct (T q Hq) as [-> | [-> | ->]];
       [now apply allowed_key | now apply allowed_new | now apply allowed_rpl]. }
   destruct o as [k v | k]; cbn [op_prog] in H.
-  - destruct (exists_ s k).
+  - destruct (fits k); [|contradiction]. destruct (exists_ s k).
     + destruct H as [<-|H]; [cbn; apply A; now left|].
       apply in_app_or in H as [H|[<-|[<-|[]]]].
       * unfold write_steps in H. apply in_map_iff in H as (b & <- & _). cbn. apply A. now left.
@@ -113,7 +113,10 @@ Proof.
   intros s o pre suf Hwf Hcl Hk E. destruct (Hcl _ Hk) as [Cn Cr].
   destruct o as [k v | k]; cbn [key_of] in *; cbn [spec_op]; rewrite ?path_eqb_refl.
   - (* set *)
-    cbn [op_prog] in E. unfold exists_ in E.
+    cbn [op_prog] in E. destruct (fits k) eqn:Ef; cbn [andb].
+    2:{ (* the temporary's name does not fit: the set is refused before it starts *)
+        left. destruct pre; [|discriminate]. cbn [run]. now apply view_clean. }
+    unfold exists_ in E.
     assert (Nk_new : k <> new_of k) by now apply key_ne_new.
     assert (Nk_rpl : k <> rpl_of k) by now apply key_ne_rpl.
     destruct (lookup s k) as [nd|] eqn:Lk.
@@ -206,7 +209,9 @@ Proof.
   assert (Own : lookup s' (new_of (key_of o)) = None /\ lookup s' (rpl_of (key_of o)) = None
                 /\ read s' (key_of o) = spec_op o (key_of o) (read s (key_of o))).
   { subst s'. destruct o as [k v | k]; cbn [key_of] in *; cbn [spec_op]; rewrite ?path_eqb_refl.
-    - cbn [op_prog]. unfold exists_.
+    - cbn [op_prog]. destruct (fits k) eqn:Ef; cbn [andb].
+      2:{ cbn [run]. split; [exact Cn | split; [exact Cr | reflexivity]]. }
+      unfold exists_.
       assert (Nk_new : k <> new_of k) by now apply key_ne_new.
       assert (Nk_rpl : k <> rpl_of k) by now apply key_ne_rpl.
       assert (Nnr : new_of k <> rpl_of k) by apply new_ne_rpl.
@@ -356,3 +361,11 @@ Qed.
 
 Lemma empty_wf_clean : wf [] /\ clean [].
 Proof. split; [split; [constructor | intros n nd H; discriminate] | intros k _; now split]. Qed.
+
+(** NAME_MAX: a 252-byte file name (a raw key of 184-186 bytes) fits in a directory entry, its temporaries do
+    not; the set has no steps and the abstract dictionary ignores it.  248 bytes is the longest storable name. *)
+Example ex_name_max :
+  fits (repeat 107%N 248) = true /\ fits (repeat 107%N 252) = false
+  /\ op_prog [] (DSet (repeat 107%N 252) [1]%N) = []
+  /\ spec_op (DSet (repeat 107%N 252) [1]%N) (repeat 107%N 252) None = None.
+Proof. repeat split; vm_compute; reflexivity. Qed.
